@@ -321,6 +321,31 @@ def Eq(a, b):
     return a == b
 
 
+def _install_math_shims():
+    """stdlib numeric predicates that would force a concrete float out of a symbolic quantity are given their
+    mathematical definition over exact reals instead (environment stub; only `math.isclose` so far)"""
+    import math
+    if getattr(math.isclose, '_vf_shim', False):
+        return
+    orig = math.isclose
+
+    def isclose(a, b, *, rel_tol=1e-09, abs_tol=0.0):
+        if not (isinstance(a, SymNum) or isinstance(b, SymNum)):
+            return orig(a, b, rel_tol=rel_tol, abs_tol=abs_tol)
+        g = a.g if isinstance(a, SymNum) else b.g
+        d = abs(a - b)
+        aa, ab = abs(a), abs(b)
+        big = Ite(aa >= ab, aa, ab)
+        tol = Ite(Fraction(rel_tol) * big >= Fraction(abs_tol), Fraction(rel_tol) * big, Fraction(abs_tol))
+        # the real function computes in doubles: values within 0.1 % of the tolerance boundary are left out (there the
+        # exact-real answer and the double answer may differ and a model would not replay)
+        lo, hi = tol * Fraction(999, 1000), tol * Fraction(1001, 1000)
+        g.assume(Or(d <= lo, d >= hi))
+        return d <= lo
+    isclose._vf_shim = True
+    math.isclose = isclose
+
+
 def is_sym(x):
     return isinstance(x, (SymBool, SymNum))
 
@@ -390,6 +415,8 @@ class Engine:
         self.path_log = None
         self.unknown_labels = []
         self.const_hash = False
+        _install_math_shims()
+        self.max_values = 6          # alternatives explored per forced concrete value
         self.path_timeout = 30.0      # seconds; a path of the real code normally takes milliseconds
         self.xcheck_left = 0
         self.xchecks = []
@@ -729,8 +756,14 @@ class Engine:
                     tr[-1] = ['b', not d[1], False]
                     break
                 if d[0] == 'v' and d[1] is not None:
-                    tr[-1] = ['v', None, tuple(d[2]) + (d[1],)]
-                    break
+                    if len(d[2]) + 1 >= self.max_values:
+                        # the code under test forced a concrete value (float(), hash(), index) of an unbounded
+                        # symbolic quantity: a few representative values are explored, the rest is reported as not
+                        # covered (`capped`), never as passed
+                        self.stats.capped += 1
+                    else:
+                        tr[-1] = ['v', None, tuple(d[2]) + (d[1],)]
+                        break
                 if d[0] == 'c' and d[1] + 1 < d[2]:
                     tr[-1] = ['c', d[1] + 1, d[2], d[3]]
                     break
